@@ -94,18 +94,23 @@ Proof. exact (fun b bs n => conj (frag_size b) (conj (frag_capacity bs n) (frag_
 Print Assumptions C03_frag_size_capacity.
 
 Theorem C03_frag_sample : forall b d,
-  sample_bounds b =
-    (if rb_sample_not_memopt (memopt b) then (0, rb_upper_bound (full b) (cap b) (pos b))
-     else if full b then (1, cap b) else (0, pos b)) /\
+  (let ub := rb_upper_bound (full b) (cap b) (pos b) in
+   sample_bounds b =
+   if rb_sample_not_memopt (memopt b)
+   then (rb_base_lo (full b) (cap b) (pos b) (nenv b) ub, rb_base_hi (full b) (cap b) (pos b) (nenv b) ub)
+   else if full b
+        then (rb_memopt_full_lo (full b) (cap b) (pos b) (nenv b) ub, rb_memopt_full_hi (full b) (cap b) (pos b) (nenv b) ub)
+        else (rb_memopt_notfull_lo (full b) (cap b) (pos b) (nenv b) ub, rb_memopt_notfull_hi (full b) (cap b) (pos b) (nenv b) ub)) /\
   idx_of_draw b d =
-    (if rb_sample_not_memopt (memopt b) then rb_base_index d
-     else rb_memopt_index (full b) d d (pos b) (cap b)).
-Proof. exact (fun b d => conj (frag_sample_bounds b) (frag_idx_of_draw b d)). Qed.
+    (if rb_sample_not_memopt (memopt b) then rb_base_index d else rb_memopt_index (full b) d (pos b) (cap b)) /\
+  (forall ub, env_bounds b = (rb_env_lo (full b) (cap b) (pos b) (nenv b) ub, rb_env_hi (full b) (cap b) (pos b) (nenv b) ub) /\
+              env_bounds b = (dictrb_env_lo (full b) (cap b) (pos b) (nenv b) ub, dictrb_env_hi (full b) (cap b) (pos b) (nenv b) ub)).
+Proof. exact (fun b d => conj (frag_sample_bounds b) (conj (frag_idx_of_draw b d) (frag_env_bounds b))). Qed.
 Print Assumptions C03_frag_sample.
 
 Theorem C03_frag_get : forall b i e,
   snd (fst (fst (get b i e))) =
-    (if rb_memopt_next_branch (memopt b) then a_obs b (rb_memopt_next_index i (cap b)) e else a_next b i e) /\
+    (if rb_memopt_next_branch (memopt b) then a_obs b (rb_memopt_next_index i (Z.of_nat e) (cap b)) e else a_next b i e) /\
   snd (fst (get b i e)) = rb_done_mask (a_done b i e) (a_to b i e) /\
   rb_done_mask (a_done b i e) (a_to b i e) = dictrb_done_mask (a_done b i e) (a_to b i e).
 Proof.
@@ -113,6 +118,34 @@ Proof.
            (eq_trans (proj1 (frag_done_mask _ _)) (eq_sym (proj2 (frag_done_mask _ _)))))).
 Qed.
 Print Assumptions C03_frag_get.
+
+(* every array of _get_samples is gathered at the drawn (slot, env) pair; every field of add() is written at slot pos from
+   the argument of the same name (codes 1 obs, 2 next_obs, 3 action, 4 reward, 5 done) *)
+Theorem C03_frag_gather_and_writes : forall i ev p c,
+  (Forall (fun f => f i ev c = i)
+     [rb_gather_obs_slot; rb_gather_act_slot; rb_gather_done_slot; rb_gather_to_slot; rb_gather_rew_slot; rb_gather_next_slot;
+      dictrb_gather_act_slot; dictrb_gather_done_slot; dictrb_gather_to_slot; dictrb_gather_rew_slot; dictrb_gather_obs_slot; dictrb_gather_next_slot] /\
+   Forall (fun f => f i ev c = ev)
+     [rb_gather_obs_env; rb_gather_act_env; rb_gather_done_env; rb_gather_to_env; rb_gather_rew_env; rb_gather_next_env; rb_memopt_next_env;
+      dictrb_gather_act_env; dictrb_gather_done_env; dictrb_gather_to_env; dictrb_gather_rew_env; dictrb_gather_obs_env; dictrb_gather_next_env] /\
+   rb_memopt_next_index i ev c = (i + 1) mod c /\ dictrb_gather_obs_source = 1 /\ dictrb_gather_next_source = 2) /\
+  (Forall (fun f => f p c = p)
+     [rb_add_obs_slot; rb_add_next_slot; rb_add_act_slot; rb_add_rew_slot; rb_add_done_slot; rb_add_to_slot;
+      dictrb_add_obs_slot; dictrb_add_next_slot; dictrb_add_act_slot; dictrb_add_rew_slot; dictrb_add_done_slot; dictrb_add_to_slot] /\
+   rb_memopt_write_index p c = (p + 1) mod c /\
+   (rb_add_obs_src, rb_memopt_write_src, rb_add_next_src, rb_add_act_src, rb_add_rew_src, rb_add_done_src) = (1, 2, 2, 3, 4, 5) /\
+   (dictrb_add_act_src, dictrb_add_rew_src, dictrb_add_done_src) = (3, 4, 5)).
+Proof. exact (fun i ev p c => conj (frag_gather i ev c) (frag_add_fields p c)). Qed.
+Print Assumptions C03_frag_gather_and_writes.
+
+(* completeness over (index, env) pairs: every stored add and every env column can be drawn *)
+Theorem C03_sample_complete_pairs : forall dict bs n mo ht b0 ops k ev, create dict bs n mo ht = Some b0 ->
+  let b := run b0 ops in let h := recent ops in
+  0 <= k -> (if mo then len h - capacity bs n < k else len h - capacity bs n <= k) -> k < len h -> 0 <= ev < n ->
+  exists d ee, fst (sample_bounds b) <= d < snd (sample_bounds b) /\ fst (env_bounds b) <= ee < snd (env_bounds b) /\
+               idx_of_draw b d = k mod capacity bs n /\ ee = ev.
+Proof. exact reach_sample_complete_pairs. Qed.
+Print Assumptions C03_sample_complete_pairs.
 
 (* with a VecNormalize passed to sample(): every element is normalize_obs / normalize_reward (fo / fr) of the
    STORED raw values of that one add; action and done untouched *)
